@@ -10,6 +10,8 @@ use rml_rtmp::sessions::StreamMetadata;
 use rml_rtmp::time::RtmpTimestamp;
 use serde_json::{json, Value};
 use std::collections::HashMap;
+use crate::chunk::Run;
+use rml_rtmp::verif::SerializedHeader;
 
 pub fn bytes_json(b: &[u8]) -> Value {
     json!(b.to_vec())
@@ -184,5 +186,53 @@ pub fn lost_ack(prev_probe: &Value, e: &Value) -> bool {
     match win {
         Some(w) => pend + n >= w,
         None => false,
+    }
+}
+
+/// Byte-level record of everything a session returned (C18), in Trace_Chunk format: one Ser event
+/// per returned packet, in RETURNED order, whose intent is what the session asked its serializer
+/// to encode for exactly that packet (serializer tap).  Packets that were serialized but never
+/// returned (a failing call) are logged as omitted: the sender's memory advanced, the peer never
+/// saw them.
+pub struct WireLog {
+    pub run: Run,
+    pub lost: usize,
+    pub packets: usize,
+}
+impl WireLog {
+    pub fn record(&mut self, packets: &[&Packet], mut taps: Vec<SerializedHeader>) {
+        let ser = |t: &SerializedHeader, line: usize, drop: bool| -> Value {
+            json!({"ev":"Ser","ty":t.type_id,"msid":w(t.message_stream_id),"ts":w(t.timestamp),"len":t.length,
+                   "data":segs(&t.data),"fu":t.force_uncompressed,"cd":t.can_be_dropped,"res":"ok","drop":drop,
+                   "ml":line,"api":"sess","badsize":false})
+        };
+        for p in packets {
+            self.packets += 1;
+            let line = self.run.next_line();
+            match taps.iter().position(|t| t.output == p.bytes) {
+                Some(i) => {
+                    let t = taps.remove(i);
+                    let v = ser(&t, line, p.can_be_dropped);
+                    self.run.wire(v, &p.bytes, true, false);
+                }
+                None => {
+                    // a packet nobody serialized in this call: log it with an impossible intent
+                    let v = json!({"ev":"Ser","ty":0,"msid":w(0),"ts":w(0),"len":0,"data":[],"fu":false,"cd":p.can_be_dropped,
+                                   "res":"ok","drop":p.can_be_dropped,"ml":line,"api":"sess-unknown","badsize":false});
+                    self.run.wire(v, &p.bytes, true, false);
+                }
+            }
+        }
+        for t in taps {
+            if t.output.is_empty() {
+                continue;
+            }
+            self.lost += 1;
+            let line = self.run.next_line();
+            let mut v = ser(&t, line, t.can_be_dropped);
+            v["lost"] = json!(true);
+            let out = t.output.clone();
+            self.run.wire(v, &out, true, true);
+        }
     }
 }
